@@ -420,6 +420,8 @@ func c06(c *Ctx) (*report.Result, error) {
 	checkRelayLoops(c, res, "O6.10", []string{"proxy/admin_stream_transfer.go"}, 3)
 	res.RuleDoc["O6.11"] = "the stream handler's bookkeeping cannot refuse a well-formed stream: ReportStreamValue, called before the relay starts, reaches streamActive[idx] only where idx < len(streamActive) is established - the growth test is against the indexed slice's length and the edge that skips the growth implies idx < len (same analysis as O20.9); an off-by-one there panics for the shard id equal to the table's length and that shard's stream is never relayed"
 	checkObserverIndexGuard(c, res, "O6.11")
+	res.RuleDoc["O6.14"] = "the relays can receive what the clusters send: MakeDialOptions hands grpc.WithDefaultCallOptions a grpc.MaxCallRecvMsgSize of at least 128 MiB (Temporal's internode maximum) - with gRPC's 4 MiB default a larger replication batch fails the relay's Recv and the stream is ended as if the source had closed it"
+	checkClientRecvLimit(c, res, "O6.14")
 	res.RuleDoc["O6.12"] = "the forwarder's worker bookkeeping is consistent (same analysis as O8.15): Add equals the number of goroutines started with the WaitGroup, each calls Done from an entry-block defer, none runs synchronously and Run does not return before Wait - otherwise the handler never returns or returns under running relays"
 	checkWaitGroups(c, res, "O6.12", []string{"proxy/admin_stream_transfer.go"}, 2)
 	return res, nil
